@@ -751,9 +751,18 @@ package proxy
 //@   props C08
 //@   requires sm.activeReceivers != nil
 //@   ensures @newest_registered: sourceShardID in sm.activeReceivers && sm.activeReceivers[sourceShardID] == receiver
+// The registration time doubles as the incarnation token that UnregisterShard compares, and as the claim time that
+// NotifyMsg compares across instances: it must be the clock reading taken by THIS registration, at full resolution
+// (A-clock: successive readings differ). Ghost lastNow = the last reading taken by addLocalShard.
+//@ ghost shardManagerImpl.lastNow time.Time
+//@ extern time.Now@(*shardManagerImpl).addLocalShard()
+//@   trusted the wall clock
+//@   ensures sm.lastNow == result
+//@   assigns sm.lastNow
 //@ contract (*shardManagerImpl).addLocalShard
 //@   props C08 C09
 //@   requires sm.localShards != nil
+//@   ensures @token_is_this_clock_reading: result == sm.lastNow
 //@   ensures @claimed_now: ClusterShardIDtoShortString(shard) in sm.localShards && sm.localShards[ClusterShardIDtoShortString(shard)].Created == result && sm.localShards[ClusterShardIDtoShortString(shard)].ID == shard
 // The predecessor is evicted: after the call no cancel function and no acknowledgement channel of an older
 // receiver incarnation is registered for the shard.
